@@ -13,6 +13,8 @@ B1 = Bounds(rep=1, mapn=1, strlen=1, depth=1, narrow=True)
 def _member_value(env, cat, f, name, allow_default=True):
     """a value for oneof member f: the type default or a symbolic value (environment choice)"""
     if f.kind == "message":
+        if not cat.shapes[f.msg].fields:
+            return {}
         k = env.choose(name + "#msg", 2)
         return {} if k == 0 else {"x": shapes.gen_scalar(env, name + ".x", "int32", B1, True)}
     if allow_default and env.choose(name + "#default", 2) == 0:
@@ -151,7 +153,7 @@ OPS = ["set-member", "set-plain", "parse", "from_dict", "copy", "deepcopy", "pic
 def h_history(env):
     """operation sequences from a fresh message; the abstract model tracks the member set last.  Every object that was ever
     copied from stays alive and is observed after every later step (a copy must not share selection state with its source)."""
-    cat = catalogue.get(["s2", "oneofs"])
+    cat = catalogue.get(env.params.get("cat", ["s2", "oneofs"]))
     mod = shapes.build_bp(cat)
     m = mod.M()
     model = {g: ("", None) for g in cat.shapes["M"].groups()}
@@ -173,7 +175,7 @@ def h_step(env):
     """inductive step: an arbitrary state satisfying the representation invariant, one operation, invariant + observable clause again"""
     import betterproto
 
-    cat = catalogue.get(["s2", "oneofs"])
+    cat = catalogue.get(env.params.get("cat", ["s2", "oneofs"]))
     mod = shapes.build_bp(cat)
     s = cat.shapes["M"]
     m = mod.M()
@@ -279,6 +281,11 @@ def units(tier):
     for first in OPS:
         u.append(("history[%d steps, first=%s]" % (steps, first), h_history, {"steps": steps, "first": first}))
     # a constructor given several members of one group, then further operations (3 steps: construct, assign, copy ...)
+    for op in OPS:
+        u.append(("step[%s | field-less members]" % op, h_step, {"op": op, "cat": ["s2", "oneofs-nil"]}))
+    for first in ("construct", "set-member", "parse", "from_dict"):
+        if first in OPS:
+            u.append(("history[2 steps, first=%s | field-less members]" % first, h_history, {"steps": 2, "first": first, "cat": ["s2", "oneofs-nil"]}))
     u.append(("history[3 steps, first=construct-many]", h_history, {"steps": 3, "first": "construct-many", "then": ["set-member", "copy", "deepcopy", "pickle", "parse"]}))
     if tier == "thorough":
         u.append(("history[4 steps]", h_history, {"steps": 4}))
